@@ -9,7 +9,7 @@ SHADOW = False
 CELLS_RULE = "(saved class, restoring class, kind of parameter difference, group kind)"
 EXPECT_PROBES = ["role-mismatch-refused", "params-mismatch-refused", "both-mismatch-refused", "sym-to-asym-refused",
                  "unused-element-differs-accepted", "same-config-accepted", "diff:generator-only", "diff:seed:M",
-                 "diff:seed:N", "diff:seed:S", "diff:seed:MN-shift", "diff:shipped", "diff:group"]
+                 "diff:seed:N", "diff:seed:S", "diff:seed:MN-shift", "diff:seed:MN-swap", "diff:shipped", "diff:group"]
 
 
 def other_p_same_q(gspec, rng):
@@ -34,7 +34,7 @@ def gen_other_pset(rng, ps0, cls):
     """returns (pspec, label) - a parameter set that differs from ps0 in one named way"""
     g0 = ps0["group"]
     ps1 = copy.deepcopy(ps0)
-    choices = ["seed:M", "seed:N", "seed:S", "shipped", "seed:MN-shift"]
+    choices = ["seed:M", "seed:N", "seed:S", "shipped", "seed:MN-shift", "seed:MN-swap"]
     if g0["kind"] == "int":
         choices += ["generator-only", "generator-only", "generator-only"]
         if gen.is_negligible(g0):
@@ -42,6 +42,12 @@ def gen_other_pset(rng, ps0, cls):
     elif g0["kind"] in ("i1024", "i2048", "i3072"):
         choices += ["generator-only"]
     c = rng.choice(choices)
+    if c == "seed:MN-swap":
+        sd = worlds.seeds_of(ps0)
+        if sd["M"] == sd["N"]:
+            return None, None
+        ps1["M"], ps1["N"] = sd["N"].hex(), sd["M"].hex()
+        return ps1, c
     if c == "seed:MN-shift":
         # both seeds change but their concatenation does not (boundary shift, as for identities)
         sd = worlds.seeds_of(ps0)
